@@ -79,6 +79,11 @@ def gen(rng, kind, tier):
         opts = locate_opts(rng, dim)
         opts.pop("interface_width", None)
         opts.pop("num_processes", None)
+        if rng.random() < 0.2:
+            # fields on grids with symmetries (one grid object serves the whole history and the offline analysis)
+            fam = str(rng.choice(["polar", "sph", "cyl", "cyl"]))
+            spec = geom.rand_sym_spec(rng, fam, nmin=6, nmax=24) if fam != "cyl" else geom.rand_cyl_spec(rng, nmin=5, nmax=12)
+            opts["modes"] = 0
         if opts["refine"] and rng.random() < 0.5:
             opts["refine"] = False  # keep most histories cheap
         source = str(rng.choice(["none", "none", "index", "callable", "callable-on-field"]))
